@@ -421,6 +421,11 @@ def normalise(fn, world=None, modname=None, cls=None, primitives=(),
             fn = acopy(fn)
         fn = _lift(fn, values=True)
         ast.fix_missing_locations(fn)
+    if aliases is True and detable:
+        # forms that only appear once aliases are written out
+        # (`max(ends)` with ends = (a, b))
+        from .unroll import fold_constants
+        fold_constants(fn)
     set_parents(fn)
     fn._parent = parent
     fn._norm_info = info
